@@ -19,6 +19,9 @@ import PdfVerif.Gen.Filters
 namespace PdfVerif.Filters
 open PdfVerif PdfVerif.Gen.Filters
 
+-- translated straight-line code used by name in this model (round 6)
+export PdfVerif.Gen.Filters (nbitsAfter pngNbytes pngBpp)
+
 inductive Err
   | binascii          -- binascii.Error
   | valueError        -- ValueError
@@ -202,8 +205,7 @@ inductive FeedRes
   | corrupt
   | indexError
 
-def nbitsAfter (nbits tableLength : Nat) : Nat :=
-  if tableLength == 511 then 10 else if tableLength == 1023 then 11 else if tableLength == 2047 then 12 else nbits
+-- `nbitsAfter` (the code-width schedule at the end of `feed`) is translated: `Gen.Filters.nbitsAfter`.
 
 def feedGrow (st : LzwSt) (entry x : Bytes) : FeedRes :=
   let ext' := st.ext ++ [entry]
@@ -315,8 +317,7 @@ def pngRows (nbytes bpp : Nat) : Nat → Bytes → Bytes → Except Err Bytes
       | .ok r => .ok (raw ++ r)
       | .error e => .error e
 
-def pngNbytes (colors columns bpc : Nat) : Nat := (colors * columns * bpc + 7) / 8
-def pngBpp (colors bpc : Nat) : Nat := max 1 (colors * bpc / 8)
+-- `pngNbytes` (bytes per row) and `pngBpp` (bytes per pixel) are translated: `Gen.Filters.pngNbytes/pngBpp`.
 
 /-- `utils.apply_png_predictor` (the `pred` argument is unused by the code). -/
 def apply_png_predictor (colors columns bpc : Nat) (data : Bytes) : Except Err Bytes :=
